@@ -154,6 +154,8 @@ def ed25519(ctx, world, ev):
                 from ..terms import subst
                 zeros = {t: Const(0) for (t, p) in conds if p is False and ty_of(t) == "int"}
                 zeros.update({(t.args[0] if t.args[1] == Const(0) else t.args[1]): Const(0) for (t, p) in conds
+                              if is_app(t, "NotEq") and p is False and Const(0) in t.args})
+                zeros.update({(t.args[0] if t.args[1] == Const(0) else t.args[1]): Const(0) for (t, p) in conds
                               if is_app(t, "Eq") and p is True and Const(0) in t.args})
                 for (t, p) in conds:
                     t2 = subst(t, zeros) if zeros else t
